@@ -135,3 +135,9 @@ func Seed() int64 {
 	}
 	return s
 }
+
+// OpenNull returns a sink that discards everything.
+func OpenNull() *T {
+	f, _ := os.OpenFile(os.DevNull, os.O_WRONLY, 0)
+	return &T{f: f, w: bufio.NewWriterSize(f, 1<<16), t0: time.Now(), ids: map[string]map[any]int{}, Mute: true}
+}
